@@ -50,6 +50,9 @@ TREES = {
     "t4": {"empty.py": "", "broken.js": "function f(", "notes.txt": "hi"},
     "t5": {"d1/d2/d3/d4/deep.py": tree.flat_file("Python", [62]), "d1/top.py": tree.flat_file("Python", [15])},
     "t6": {"café.py": tree.flat_file("Python", [3]), "we ird/na\"me.js": tree.flat_file("JavaScript", [2])},
+    # byte-identical files of two languages (and of one language): a missing entry must not be replaced by a look-alike
+    "t7": {"lib.js": tree.flat_file("JavaScript", [3, 32]), "lib.ts": tree.flat_file("JavaScript", [3, 32]), "h.c": "int f(int a) {\n  return a;\n}\n", "h.cpp": "int f(int a) {\n  return a;\n}\n",
+           "pkg/__init__.py": "", "pkg/sub/__init__.py": "", "copy/lib.js": tree.flat_file("JavaScript", [3, 32])},
 }
 BIG = {f"pkg{i % 6}/mod{i}.py": tree.flat_file("Python", [2 + i % 5, 3]) for i in range(60)}
 
@@ -153,7 +156,8 @@ class Session:
     def scan_and_check(self, what):
         from codelimit.common.report.ReportReader import ReportReader
 
-        res = cli.run_scan(self.root, ".")
+        self.nscans = getattr(self, "nscans", 0) + 1
+        res = cli.run_scan(self.root, ".", verbose=self.nscans % 3 == 0)  # every third scan in verbose mode
         if res.exc:
             return (f"scan-fails:{res.exc[0]}", f"{what}: {res.exc[1][-1500:]}")
         if res.code != 0:
@@ -199,7 +203,7 @@ def key_paths(doc, prefix=()):
     return out
 
 
-WRONG = [None, 0, "s", [], {}, 1.5, True]
+WRONG = [None, 0, "s", [], {}, 1.5, True, "[/]", ["[/x]"]]  # the last two: text that is markup to the console library
 
 
 def _jtype(v):
@@ -369,7 +373,7 @@ def plan(tier, seed):
     for t in tr:
         for p in range(4 if quick else 4):
             jobs.append(("truncations", {"tname": t, "part": p, "nparts": 4}))
-    for t in (["t1"] if quick else sorted(TREES)):
+    for t in (["t1", "t7"] if quick else sorted(TREES)):
         for p in range(4):
             jobs.append(("structural", {"tname": t, "part": p, "nparts": 4}))
     if not quick:
